@@ -10,7 +10,7 @@
 (*              single reads (new axis / existing axis), with keys         *)
 (***************************************************************************)
 EXTENDS Arrays, Json
-CONSTANTS Emit
+CONSTANTS Emit, Deep          \* Deep: also a 3-d variable (float, str and int labels) in the read / assign families
 VARIABLES in, out, ph
 vars == <<in, out, ph>>
 
@@ -21,8 +21,9 @@ FileVars == [a |-> V(<<"x", "y">>, <<"i", "f">>, << <<4, 2, 6>>, <<3, 7>> >>, "f
              b |-> V(<<"z", "x">>, <<"s", "i">>, << <<6, 2>>, <<4, 2, 6>> >>, "j", 200, {}),
              n |-> V(<<"x">>, <<"i">>, << <<4, 2, 6>> >>, "i", 300, {}),
              m |-> V(<<"w">>, <<"f">>, << <<2, 6, 10>> >>, "f", 500, {}),
-             c |-> V(<<>>, <<>>, <<>>, "f", 400, {})]
-VarNames == {"a", "b", "n", "m", "c"}
+             c |-> V(<<>>, <<>>, <<>>, "f", 400, {}),
+             d |-> V(<<"y", "z", "x">>, <<"f", "s", "i">>, << <<3, 7>>, <<6, 2>>, <<4, 2, 6>> >>, "f", 600, {3})]
+VarNames == {"a", "b", "n", "m", "c"} \cup (IF Deep THEN {"d"} ELSE {})
 
 LabelMenu(L) == {IxAll, IxSc(L[Len(L)]), IxSc(L[1] + 1), IxLi(Rev(L)), IxLi(<<L[1]>>), IxLi(<<>>), IxLi(<<L[1], L[1]>>),
                  IxMk([i \in 1..Len(L) |-> i # 1 \/ Len(L) = 1]), IxSl(<<L[1]>>, <<L[Len(L)]>>, <<>>), IxSl(<<>>, <<L[1]>>, <<>>)}
@@ -59,7 +60,7 @@ ReadTol ==
        /\ out' = Take(FileVars["m"], <<ix>>, "label", <<t>>)
 Assign ==
   /\ ph = 0 /\ ph' = 1
-  /\ \E v \in {"a", "b", "n"} : \E mode \in {"label", "position"} : \E idxs \in IdxTuples(FileVars[v].labs, mode) : \E full \in BOOLEAN :
+  /\ \E v \in ({"a", "b", "n"} \cup (IF Deep THEN {"d"} ELSE {})) : \E mode \in {"label", "position"} : \E idxs \in IdxTuples(FileVars[v].labs, mode) : \E full \in BOOLEAN :
        LET a == FileVars[v]
            sh == SelShape(a, idxs, mode)
            rhs == MkRhs(IF full THEN sh ELSE <<>>, IF a.dtype = "j" THEN "i" ELSE a.dtype, 900)
